@@ -317,12 +317,15 @@ func corrOf(id int, origin string, p *starlark.Program, class []string) corrCase
 	return c
 }
 
-func modeCorr(seed uint64, n int) {
+func modeCorr(seed uint64, n int, sample bool) {
 	r := hx.NewRand(seed ^ 0xc17)
 	id := 0
-	// boundary programs: one field at a time
+	// boundary programs: one field at a time (quick tier: a seeded third of them)
 	bp, cls := boundaryPrograms()
 	for i, d := range bp {
+		if sample && (uint64(i)+seed)%3 != 0 {
+			continue
+		}
 		p, ok := starlark.VerifProgramFromDump(d, "b.star")
 		if !ok {
 			continue
